@@ -76,6 +76,14 @@ def ensure_driver():
     mt = lambda p: os.path.getmtime(p) if os.path.exists(p) else -1.0     # noqa: E731
     vsrc = [os.path.join(lib.COQ, f) for f in MODEL_FILES + ['Layout/Denorm.v', 'Layout/LayoutNorm.v', 'Parser/Format.v', 'Parser/Split.v', 'Parser/Merge.v']]
     vsrc += [os.path.join(lib.COQ, 'Gen', 'Generated.v')]
+    if mt(ml) < max(mt(p) for p in vsrc) or mt(mli) < 0:
+        # other builders may have rebuilt shared libraries since our .vo files were made: let make bring the dependencies of
+        # the extraction file up to date first (build.sh takes the build lock itself), so that coqc sees a consistent set
+        try:
+            subprocess.run([os.path.join(os.path.dirname(os.path.abspath(lib.__file__)), 'build.sh'), 'Extract/Graph/ExtractGraph.vo'],
+                           env=dict(os.environ, VERIF_COQ_DIR=lib.COQ), capture_output=True, text=True, timeout=3000)
+        except Exception:      # noqa: BLE001 - the direct coqc call below reports what is wrong
+            pass
     with open(os.path.join(lib.COQ, '.build.lock'), 'a') as lk:
         fcntl.flock(lk, fcntl.LOCK_EX)
         try:
@@ -480,6 +488,16 @@ def _isolated(symbols, seed):
                 m.__dict__['_' + nm][:] = data[nm]
             return m
 
+        shared = Model(span)       # one instance re-loaded for every perturbation run (construction dominates the cost)
+
+        def load(data):
+            for nm in names:
+                shared.__dict__['_' + nm][:] = data[nm]
+            return shared
+
+        # large steps only where a term can be masked by max / min / abs / a comparison / a conditional
+        rough = re.search(r'max|min|abs|if|<|>|==|!=|\band\b|\bor\b|\bnot\b|sign|where|clip', s.code) is not None
+        deltas = DELTAS if rough else DELTAS[:1]
         entry = {'lhs': lhs, 'reads': [], 'infl': [], 'labels': [repr(lb) for lb in labels], 'tuple': ',' in lhs_all}
         try:
             base = []
@@ -498,10 +516,9 @@ def _isolated(symbols, seed):
             for nm, pos, key in cells:
                 hit = False
                 for d, b in zip(datas, base):
-                    for dl in DELTAS:
-                        d2 = {q: list(v) for q, v in d.items()}
-                        d2[nm][pos] += dl
-                        m = fresh(d2)
+                    for dl in deltas:
+                        m = load(d)
+                        m.__dict__['_' + nm][pos] += dl
                         run(m, s.code)
                         v = float(np.asarray(m.__dict__['_' + y])[t + ky])
                         if not (v == b or (v != v and b != b)):
